@@ -3,6 +3,8 @@
 EXTENDS Date, TraceBase
 
 Dt(a) == D(a[1], a[2], a[3])
+MonthNames == <<"January", "February", "March", "April", "May", "June", "July", "August", "September",
+                "October", "November", "December">>
 
 \* C01: one date through every output path and every input path
 RtDemands(e) ==
@@ -15,6 +17,8 @@ RtDemands(e) ==
   IN <<
     <<"H.new",      e.new = <<e.y, e.m, e.d>> >>,           \* harness sanity: a calendar date
     <<"H.chain",    e.chain = 1 => (ctx.k = "date" /\ x = NextDay(ctx.v)) >>,
+    <<"X.accessors", e.acc = <<e.y, e.m, e.d>> >>,                 \* Year(), Month(), Day()
+    <<"X.monthname", e.mname = MonthNames[e.m]>>,
     <<"C01.noerr",  e.errs = 0>>,
     <<"C01.fmt_e",  e.fe = ext>>,
     <<"C01.fmt_b",  e.fb = bas>>,
